@@ -653,6 +653,7 @@ pub fn cmd(args: &Args) -> Report {
         rep.count("enumerated_connect_orders", enumerated.len() as u64);
     }
     let mut i = 0u64;
+    let mut rep_cases = 0u64;
     loop {
         let case = if let Some((k, perm, o)) = enumerated.pop() {
             gen_case(&mut rng, k, Some((perm, o)))
@@ -672,6 +673,15 @@ pub fn cmd(args: &Args) -> Report {
         vcommon::mark_case(&format!("c08:{}:{}:{}", args.seed, args.shard, i));
         let (findings, obs) = execute(&case);
         rep.eval();
+        if rep_cases % 200 == 1 {
+            // a hop connected while the simulation runs, from the channel object of a hop that is transmitting: messages
+            // sent over the new hop are delivered exactly once, after transmission time + latency
+            rep.count("hops_connected_at_run_time_from_a_busy_channel", 1);
+            for (kind, detail) in crate::c07::runtime_connect_probe(&mut rng).into_iter().filter(|(k, _)| *k != "busy-flag").take(1) {
+                rep.violation(&format!("C08/run-time-hop-{kind}"), &detail, json!({"driver": "desmon", "sub": "c07", "runtime_connect_probe": true}));
+            }
+        }
+        rep_cases += 1;
         rep.count("deliveries_checked", obs.deliveries);
         rep.count("chain_walks_checked", obs.walks);
         rep.count("connect_calls", obs.connects);
